@@ -117,7 +117,16 @@ def _gate_in(u, fn, scc_names):
             cs = expr_str(counter)
             # 1. the call is reachable only through the continue edge of the gate
             if not guarded_by(cfg, node.id, lambda nn, l, g=g, cont=cont: nn.id == g.id and l is not None and l[0] == cont):
-                continue
+                # a path around the test may exist in the graph only: `if ((child != NULL) && (depth >= LIMIT)) fail;` in front of
+                # `while (child != NULL) { recurse }` is bypassed through child == NULL, with which the loop is not entered.
+                # The test counts when no path with consistent branch outcomes reaches the call without passing its continue edge.
+                from .common import feasibly_reaches
+                cont_targets = {y for (y, l) in cfg.succ[g.id] if l is not None and l[0] == cont}
+
+                def barrier(nn, l, g=g):
+                    return nn.id == g.id          # paths through the gate are fine: look for one that never touches it
+                if feasibly_reaches(cfg, fn, node.id, barrier):
+                    continue
             # 2. the refusing edge reaches a return without passing a recursive call
             # 3. the counter grows: field counter incremented between gate and call, or parameter passed + k
             grows = None
